@@ -96,38 +96,53 @@ func c13Ver6(b []byte) int {
 }
 
 // ---------------------------------------------------------------------------------------------
-// request kinds: how the harness makes the real code take each extracted path
+// request kinds: how the harness makes the real code take each kind of path. A kind is described to
+// the model by its *shape* (entry point, address selections performed, kind of exit), never by the name
+// of an extracted path: the driver finds the program with that shape in the regenerated table.
 
 type c13Kind struct {
-	path      string // name of the path in Gen.bdReqPaths
-	tag       string // variant tag (not part of the path name)
+	uni       bool   // RegisterUnidirectional instead of RegisterBidirectional
+	fams      string // the selections the request performs, in order: "46", "4", "6", ""
+	exit      string // ok | sel (error right after the last selection) | late (error after the selections) | early (error before anything)
+	tag       string // variant tag (not part of the shape)
 	v4, v6    bool
 	gen       uint32 // 1: both families, 2: v4 only (v6 selection fails), 3: v6 only (v4 selection fails), 99: unknown
 	unknownTr bool   // transport not enabled: error exit after the selections
 	noPayload bool   // no registration payload: error exit before the selections
+	sendFail  bool   // publishing to zmq fails: error exit between zmqMutex.Lock/Unlock and the return
 }
 
 var c13Kinds = []c13Kind{
-	{path: "v4+v6", v4: true, v6: true, gen: 1},
-	{path: "v4", v4: true, gen: 1},
-	{path: "v6", v6: true, gen: 1},
-	{path: "base", gen: 1},
-	{path: "v4+v6+err", v4: true, v6: true, gen: 2},
-	{path: "v4+err", v4: true, gen: 3},
-	{path: "v4+err", tag: "d", v4: true, v6: true, gen: 3},
-	{path: "v4+err", tag: "g99", v4: true, v6: true, gen: 99},
-	{path: "v6+err", v6: true, gen: 2},
-	{path: "v4+v6+return", v4: true, v6: true, gen: 1, unknownTr: true},
-	{path: "v4+return", v4: true, gen: 1, unknownTr: true},
-	{path: "v6+return", v6: true, gen: 1, unknownTr: true},
-	{path: "return", noPayload: true},
+	{fams: "46", exit: "ok", v4: true, v6: true, gen: 1},
+	{fams: "4", exit: "ok", v4: true, gen: 1},
+	{fams: "6", exit: "ok", v6: true, gen: 1},
+	{fams: "", exit: "ok", gen: 1},
+	{fams: "46", exit: "sel", v4: true, v6: true, gen: 2},
+	{fams: "4", exit: "sel", v4: true, gen: 3},
+	{fams: "4", exit: "sel", tag: "d", v4: true, v6: true, gen: 3},
+	{fams: "4", exit: "sel", tag: "g99", v4: true, v6: true, gen: 99},
+	{fams: "6", exit: "sel", v6: true, gen: 2},
+	{fams: "46", exit: "late", v4: true, v6: true, gen: 1, unknownTr: true},
+	{fams: "4", exit: "late", v4: true, gen: 1, unknownTr: true},
+	{fams: "6", exit: "late", v6: true, gen: 1, unknownTr: true},
+	{fams: "", exit: "early", noPayload: true},
+	// the publishing side (zmqMutex): a send that fails, unidirectional registrations
+	{fams: "46", exit: "late", tag: "zf", v4: true, v6: true, gen: 1, sendFail: true},
+	{fams: "4", exit: "late", tag: "zf", v4: true, gen: 1, sendFail: true},
+	{uni: true, exit: "ok", v4: true, gen: 1},
+	{uni: true, exit: "late", tag: "zf", v4: true, gen: 1, sendFail: true},
+	{uni: true, exit: "early", noPayload: true, tag: "short"},
 }
 
 func (k c13Kind) spec() string {
-	if k.tag != "" {
-		return "q:" + k.path + ":" + k.tag
+	s := "q:" + k.fams + ":" + k.exit
+	if k.uni {
+		s = "u:" + k.exit
 	}
-	return "q:" + k.path
+	if k.tag != "" {
+		s += ":" + k.tag
+	}
+	return s
 }
 
 func c13KindOf(spec string) (c13Kind, bool) {
@@ -139,9 +154,10 @@ func c13KindOf(spec string) (c13Kind, bool) {
 	return c13Kind{}, false
 }
 
-func (k c13Kind) fails() bool {
-	return strings.Contains(k.path, "err") || strings.Contains(k.path, "return")
-}
+func (k c13Kind) fails() bool { return k.exit != "ok" }
+
+// a send whose payload carries this marker (part of the shared secret) fails in the fake zmq socket
+var c13FailMarker = []byte("ZMQFAIL!")
 
 func c13Secret(i int) []byte {
 	s := make([]byte, 32)
@@ -151,8 +167,19 @@ func c13Secret(i int) []byte {
 	return s
 }
 
+func (k c13Kind) secret(i int) []byte {
+	s := c13Secret(i)
+	if k.sendFail {
+		copy(s, c13FailMarker)
+	}
+	if k.uni && k.noPayload {
+		return s[:4] // shorter than a registration id: processC2SWrapper refuses it
+	}
+	return s
+}
+
 func (k c13Kind) request(i int) *pb.C2SWrapper {
-	w := &pb.C2SWrapper{SharedSecret: c13Secret(i)}
+	w := &pb.C2SWrapper{SharedSecret: k.secret(i)}
 	if k.noPayload {
 		return w
 	}
@@ -198,8 +225,13 @@ func (g *c13Gated) Select(seed []byte, gen uint, ver uint, v6 bool) (*phantoms.P
 
 type c13Sender struct{}
 
-func (c13Sender) SendBytes(b []byte, f zmq.Flag) (int, error) { return len(b), nil }
-func (c13Sender) Close() error                                { return nil }
+func (c13Sender) SendBytes(b []byte, f zmq.Flag) (int, error) {
+	if bytes.Contains(b, c13FailMarker) {
+		return 0, fmt.Errorf("verif: send refused")
+	}
+	return len(b), nil
+}
+func (c13Sender) Close() error { return nil }
 
 var c13Metrics *metrics.Metrics
 
@@ -245,8 +277,8 @@ const (
 
 var c13DumpBuf = make([]byte, 1<<20)
 
-// c13Dump maps goroutine id -> (state, text) for the ids asked for.
-func c13Dump(ids map[int64]bool) (map[int64]c13GState, map[int64]string) {
+// c13RawDump: goroutine id -> (status, text) for the ids asked for, from one stop-the-world dump.
+func c13RawDump(ids map[int64]bool) map[int64][2]string {
 	for {
 		n := runtime.Stack(c13DumpBuf, true)
 		if n < len(c13DumpBuf) {
@@ -255,8 +287,7 @@ func c13Dump(ids map[int64]bool) (map[int64]c13GState, map[int64]string) {
 		}
 		c13DumpBuf = make([]byte, 2*len(c13DumpBuf))
 	}
-	states := map[int64]c13GState{}
-	texts := map[int64]string{}
+	res := map[int64][2]string{}
 	for _, blk := range bytes.Split(c13DumpBuf, []byte("\n\n")) {
 		if !bytes.HasPrefix(blk, []byte("goroutine ")) {
 			continue
@@ -278,20 +309,119 @@ func c13Dump(ids map[int64]bool) (map[int64]c13GState, map[int64]string) {
 				status = status[:c]
 			}
 		}
-		st := c13Busy
-		waitingOnSem := status == "sync.RWMutex.RLock" || status == "sync.RWMutex.Lock" || status == "sync.Mutex.Lock" || status == "semacquire"
-		switch {
-		case status == "chan receive" && strings.Contains(s, "(*c13Gated).Select"):
-			st = c13Parked
-		case waitingOnSem && !strings.Contains(s, "(*Metrics)") &&
-			((strings.Contains(s, "(*RWMutex).RLock") && strings.Contains(s, "(*RegProcessor).")) ||
-				(strings.Contains(s, "(*RWMutex).Lock") && strings.Contains(s, "(*RegProcessor).ReloadSubnets"))):
-			st = c13Blocked
-		}
-		states[id] = st
-		texts[id] = s
+		res[id] = [2]string{status, s}
 	}
 	c13DumpBuf = c13DumpBuf[:cap(c13DumpBuf)]
+	return res
+}
+
+// The wait-reason strings of a goroutine parked in a sync mutex differ between toolchains
+// ("semacquire", "sync.RWMutex.RLock", ...). They are learnt at start-up from goroutines that the
+// harness itself blocks in RLock / Lock / Mutex.Lock of scratch mutexes (c13Calibrate); the strings of
+// the toolchains seen so far are the initial content.
+var c13WaitStatus = map[string]bool{"sync.RWMutex.RLock": true, "sync.RWMutex.Lock": true, "sync.Mutex.Lock": true, "semacquire": true}
+
+func c13Calibrate(t *testing.T) {
+	var rwR, rwW sync.RWMutex
+	var mu sync.Mutex
+	rwR.Lock()  // a reader will wait
+	rwW.RLock() // a writer will wait
+	mu.Lock()
+	type probe struct {
+		gid   atomic.Int64
+		frame string
+		done  chan struct{}
+	}
+	probes := []*probe{{frame: "sync.(*RWMutex).RLock"}, {frame: "sync.(*RWMutex).Lock"}, {frame: "sync.(*Mutex).Lock"}}
+	for i, pr := range probes {
+		pr.done = make(chan struct{})
+		ready := make(chan struct{})
+		go func(i int, pr *probe) {
+			pr.gid.Store(c13GID())
+			close(ready)
+			switch i {
+			case 0:
+				rwR.RLock()
+				rwR.RUnlock()
+			case 1:
+				rwW.Lock()
+				rwW.Unlock()
+			case 2:
+				mu.Lock()
+				mu.Unlock()
+			}
+			close(pr.done)
+		}(i, pr)
+		<-ready
+	}
+	deadline := time.Now().Add(120 * time.Second)
+	learnt := map[int]string{}
+	for len(learnt) < len(probes) {
+		ids := map[int64]bool{}
+		for _, pr := range probes {
+			ids[pr.gid.Load()] = true
+		}
+		raw := c13RawDump(ids)
+		for i, pr := range probes {
+			st := raw[pr.gid.Load()]
+			switch st[0] {
+			case "", "running", "runnable", "syscall", "idle", "dead", "copystack", "preempted":
+				continue
+			}
+			if strings.Contains(st[1], pr.frame) {
+				learnt[i] = st[0]
+			}
+		}
+		if len(learnt) < len(probes) {
+			if time.Now().After(deadline) {
+				t.Fatalf("cannot recognise goroutines blocked in sync.RWMutex / sync.Mutex in the goroutine dump of this toolchain (learnt %v)", learnt)
+			}
+			time.Sleep(200 * time.Microsecond)
+		}
+	}
+	for _, st := range learnt {
+		c13WaitStatus[st] = true
+	}
+	rwR.Unlock()
+	rwW.RUnlock()
+	mu.Unlock()
+	for _, pr := range probes {
+		<-pr.done
+	}
+}
+
+// c13Where: which lock of the processor a blocked goroutine waits for ("" = none of them).
+func c13Where(text string) string {
+	if strings.Contains(text, "(*Metrics)") || !strings.Contains(text, "(*RegProcessor).") {
+		return ""
+	}
+	switch {
+	case strings.Contains(text, "sync.(*RWMutex).RLock"):
+		return "RLock"
+	case strings.Contains(text, "sync.(*RWMutex).Lock"):
+		return "Lock"
+	case strings.Contains(text, "sync.(*Mutex).Lock"):
+		return "zmqLock"
+	}
+	return ""
+}
+
+// c13Dump maps goroutine id -> (state, text) for the ids asked for.
+func c13Dump(ids map[int64]bool) (map[int64]c13GState, map[int64]string) {
+	states := map[int64]c13GState{}
+	texts := map[int64]string{}
+	for id, st := range c13RawDump(ids) {
+		status, s := st[0], st[1]
+		state := c13Busy
+		switch {
+		case status == "chan receive" && strings.Contains(s, "(*c13Gated).Select"):
+			state = c13Parked
+		case c13WaitStatus[status] && c13Where(s) != "":
+			state = c13Blocked
+		}
+		states[id] = state
+		texts[id] = s
+	}
 	return states, texts
 }
 
@@ -326,9 +456,9 @@ func c13ParseThreads(specs []string) ([]*c13Thread, error) {
 	for i, s := range specs {
 		t := &c13Thread{spec: s}
 		switch {
-		case s == "r:base":
+		case s == "r:ok":
 			t.reload, t.relOK = true, true
-		case s == "r:return":
+		case s == "r:early":
 			t.reload = true
 		default:
 			k, ok := c13KindOf(s)
@@ -351,10 +481,10 @@ func newC13Scenario(specs []string) (*c13Scenario, error) {
 	p, g := c13Processor(true)
 	sc := &c13Scenario{p: p, g: g, ths: ths}
 	for i, t := range ths {
-		if t.reload || t.kind.noPayload {
+		if t.reload || t.kind.noPayload || t.kind.uni {
 			continue
 		}
-		keys, err := core.GenSharedKeys(uint(core.CurrentClientLibraryVersion()), c13Secret(i), pb.TransportType_Min)
+		keys, err := core.GenSharedKeys(uint(core.CurrentClientLibraryVersion()), t.kind.secret(i), pb.TransportType_Min)
 		if err != nil {
 			return nil, err
 		}
@@ -390,14 +520,23 @@ func (sc *c13Scenario) start(i int) {
 			t.err = sc.p.ReloadSubnets()
 			return
 		}
+		if t.kind.uni {
+			t.err = sc.p.RegisterUnidirectional(t.kind.request(i), pb.RegistrationSource_API, net.ParseIP("198.51.100.7").To4())
+			return
+		}
 		t.resp, t.err = sc.p.RegisterBidirectional(t.kind.request(i), pb.RegistrationSource_BidirectionalAPI, net.ParseIP("198.51.100.7").To4())
 	}()
 	<-ready
 }
 
-// settle waits until every started goroutine is finished, parked or blocked in selectorMutex.
+// c13SettleLimit only guards the harness against hanging for ever; it is not part of any verdict (a run
+// that does not settle is a harness failure, never an oracle failure). Generous, because the machine may
+// be heavily loaded.
+const c13SettleLimit = 5 * time.Minute
+
+// settle waits until every started goroutine is finished, parked or blocked in a mutex of the processor.
 func (sc *c13Scenario) settle() (map[int]c13GState, map[int]string, error) {
-	deadline := time.Now().Add(60 * time.Second)
+	deadline := time.Now().Add(c13SettleLimit)
 	for spin := 0; ; spin++ {
 		ids := map[int64]bool{}
 		for _, t := range sc.ths {
@@ -410,40 +549,28 @@ func (sc *c13Scenario) settle() (map[int]c13GState, map[int]string, error) {
 		if len(ids) == 0 {
 			return res, txt, nil
 		}
+		// Only the flags read BEFORE the dump count: a thread that was still alive then and has finished
+		// since may have released a lock after the snapshot, so the snapshot's "blocked" would be stale.
 		states, texts := c13Dump(ids)
 		quiet := true
 		for i, t := range sc.ths {
-			if !t.started {
-				continue
-			}
-			if t.done.Load() {
-				continue
+			if !t.started || !ids[t.gid.Load()] {
+				continue // not started, or finished (and so released everything) before the snapshot
 			}
 			st, ok := states[t.gid.Load()]
-			if !ok {
-				// exited between the flag read and the dump
-				if !t.done.Load() {
-					quiet = false
-				}
-				continue
-			}
-			if st == c13Busy {
+			if !ok || st == c13Busy {
+				// running, or exited between the flag read and the dump: look again
 				quiet = false
+				continue
 			}
 			res[i] = st
 			txt[i] = texts[t.gid.Load()]
 		}
 		if quiet {
-			// done flags may have been set after the first read: re-read for a consistent answer
-			for i, t := range sc.ths {
-				if t.started && t.done.Load() {
-					delete(res, i)
-				}
-			}
 			return res, txt, nil
 		}
 		if time.Now().After(deadline) {
-			return res, txt, fmt.Errorf("scenario did not settle within 60 s")
+			return res, txt, fmt.Errorf("scenario did not settle within %v (a goroutine stayed runnable: machine overloaded?)", c13SettleLimit)
 		}
 		if spin < 50 {
 			runtime.Gosched()
@@ -567,6 +694,8 @@ func c13Run(specs, events []string, drain bool) (*c13Result, error) {
 			where := "request blocked in RLock"
 			if t.reload {
 				where = "reload blocked in Lock"
+			} else if c13Where(texts[i]) == "zmqLock" {
+				where = "request blocked in zmqMutex.Lock"
 			}
 			res.deadlock = append(res.deadlock, fmt.Sprintf("thread %d (%s): %s", i, t.spec, where))
 		case t.panicked != nil:
@@ -579,6 +708,8 @@ func c13Run(specs, events []string, drain bool) (*c13Result, error) {
 			}
 		case t.err != nil:
 			parts = append(parts, "done:err")
+		case t.kind.uni:
+			parts = append(parts, "done:sent")
 		default:
 			var f []string
 			k4, k6 := -1, -1
@@ -627,9 +758,12 @@ func c13Report(out *vlib.Out, specs, events []string, res *c13Result) {
 		c13Deadlocks++
 		kinds := map[string]bool{}
 		for _, d := range res.deadlock {
-			if strings.Contains(d, "reload") {
+			switch {
+			case strings.Contains(d, "reload blocked"):
 				kinds["reload.Lock"] = true
-			} else {
+			case strings.Contains(d, "zmqMutex"):
+				kinds["request.zmqLock"] = true
+			default:
 				kinds["request.RLock"] = true
 			}
 		}
@@ -730,6 +864,10 @@ func c13Stress(t *testing.T, out *vlib.Out, r *vlib.Rand, nReq, nRounds, nReload
 			<-startGate
 			for j := 0; j < len(plans[i]) || (c13StressContinuous && reloadersLeft.Load() > 0); j++ {
 				k := plans[i][j%len(plans[i])]
+				if k.uni {
+					_ = p.RegisterUnidirectional(k.request(1000+i*nRounds+j%nRounds), pb.RegistrationSource_API, net.ParseIP("198.51.100.7").To4())
+					continue
+				}
 				resp, err := p.RegisterBidirectional(k.request(1000+i*nRounds+j%nRounds), pb.RegistrationSource_BidirectionalAPI, net.ParseIP("198.51.100.7").To4())
 				if err != nil || resp == nil {
 					continue
@@ -766,6 +904,9 @@ func c13Stress(t *testing.T, out *vlib.Out, r *vlib.Rand, nReq, nRounds, nReload
 	time.Sleep(2 * time.Millisecond)
 	close(startGate)
 	params := fmt.Sprintf("stress|seed=%d|requests=%d|rounds=%d|reloads=%d|reloaders=%d", vlib.Seed(), nReq, nRounds, nReload, nReloaders)
+	if c13StressContinuous {
+		params += "|continuous=1"
+	}
 	hard := time.Now().Add(10 * time.Minute)
 	for {
 		time.Sleep(20 * time.Millisecond)
@@ -778,25 +919,34 @@ func c13Stress(t *testing.T, out *vlib.Out, r *vlib.Rand, nReq, nRounds, nReload
 		if len(ids) == 0 {
 			break
 		}
+		// verdict from one snapshot: every goroutine that was alive before the dump (flag read above) is in
+		// the dump and blocked in a lock of the processor; the ones that finished earlier hold nothing
 		states, texts := c13Dump(ids)
-		stuck, nreq, nrel := true, 0, 0
+		stuck, nreq, nrel, nzmq := true, 0, 0, 0
 		var sample string
 		for _, w := range workers {
-			if w.done.Load() {
+			gid := w.gid.Load()
+			if !ids[gid] {
 				continue
 			}
-			if states[w.gid.Load()] != c13Blocked {
+			if st, ok := states[gid]; !ok || st != c13Blocked {
 				stuck = false
 				break
 			}
-			if w.rel {
+			switch {
+			case w.rel:
 				nrel++
-			} else {
+			case c13Where(texts[gid]) == "zmqLock":
+				nzmq++
+			default:
 				nreq++
 			}
 			if sample == "" || w.rel {
-				sample = texts[w.gid.Load()]
+				sample = texts[gid]
 			}
+		}
+		if nreq+nrel+nzmq == 0 {
+			stuck = false
 		}
 		if stuck {
 			// every live goroutine waits for selectorMutex in one stop-the-world snapshot: nobody can wake them
@@ -809,8 +959,11 @@ func c13Stress(t *testing.T, out *vlib.Out, r *vlib.Rand, nReq, nRounds, nReload
 			if nreq > 0 {
 				ks = append(ks, "request.RLock")
 			}
+			if nzmq > 0 {
+				ks = append(ks, "request.zmqLock")
+			}
 			out.OracleFail("C13:deadlock:"+strings.Join(ks, "+"),
-				fmt.Sprintf("stress run blocked for good: %d request goroutine(s) in RLock and %d reload goroutine(s) in Lock, nothing runnable", nreq, nrel), params)
+				fmt.Sprintf("stress run blocked for good: %d request goroutine(s) in RLock, %d in zmqMutex.Lock and %d reload goroutine(s) in Lock, nothing runnable", nreq, nzmq, nrel), params)
 			out.Count("stress:deadlock")
 			if vlib.Replay() != "" {
 				fmt.Println(sample)
@@ -834,13 +987,15 @@ func c13Stress(t *testing.T, out *vlib.Out, r *vlib.Rand, nReq, nRounds, nReload
 // ---------------------------------------------------------------------------------------------
 // model-guided search: ask the compiled Lean driver for a deadlocking event sequence
 
-func c13AskModel(specs []string) (string, bool) {
+func c13AskModel(specs []string) (string, bool) { return c13AskDriver("rwevents", specs) }
+
+func c13AskDriver(cmdName string, specs []string) (string, bool) {
 	drv := filepath.Join(os.Getenv("VERIF_DIR"), "lean", ".lake", "build", "bin", "drv_C13")
 	if _, err := os.Stat(drv); err != nil {
 		return "", false
 	}
 	cmd := exec.Command(drv)
-	cmd.Stdin = strings.NewReader("rwevents|" + strings.Join(specs, ",") + "\n")
+	cmd.Stdin = strings.NewReader(cmdName + "|" + strings.Join(specs, ",") + "\n")
 	b, err := cmd.Output()
 	if err != nil {
 		return "", false
@@ -859,6 +1014,7 @@ func c13Setup(t *testing.T) {
 	lg := log.New()
 	lg.SetOutput(io.Discard)
 	c13Metrics = metrics.NewMetrics(log.NewEntry(lg), 24*time.Hour)
+	c13Calibrate(t)
 }
 
 func TestVerifC13(t *testing.T) {
@@ -906,7 +1062,9 @@ func TestVerifC13(t *testing.T) {
 				if _, err := fmt.Sscanf(line, "stress|seed=%d|requests=%d|rounds=%d|reloads=%d|reloaders=%d", &seed, &a, &b, &c, &d); err != nil {
 					t.Fatalf("bad replay line %q: %v", line, err)
 				}
+				c13StressContinuous = strings.Contains(line, "|continuous=1")
 				c13Stress(t, out, r, a, b, c, d)
+				c13StressContinuous = false
 			}
 		}
 		return
@@ -914,17 +1072,21 @@ func TestVerifC13(t *testing.T) {
 
 	// 1. corpus: the interleavings the property names, written out
 	corpus := [][2]string{
-		{"q:v4+v6,r:base", "s0,s1,g0,g0"},       // reload lands between the two selections
-		{"q:v4+v6,r:base", "s0,g0,s1,g0"},       // reload lands after the second selection
-		{"q:v4+v6,r:base", "s1,s0"},             // reload first: the request runs on the reloaded selector
-		{"q:v4,r:base,q:v6", "s0,s1,s2,g0"},     // second request arrives behind a pending reload
-		{"q:v4+v6,r:base,r:base", "s0,s1,g0,s2"}, // two reloads, one after the other
-		{"q:v4+v6,q:v4+v6,r:base", "s0,s1,g0,s2,g1,g0,g1"},
-		{"q:v4+v6+err,r:base", "s0,s1,g0,g0"},
-		{"q:v4+err:d,r:base", "s0,s1,g0"},
-		{"q:return,r:base,q:base", "s0,s1,s2"},
-		{"q:v4+v6,r:return,r:base", "s0,s1,g0,s2,g0"},
-		{"q:v4+v6+return,r:base", "s0,s1,g0,g0"},
+		{"q:46:ok,r:ok", "s0,s1,g0,g0"},       // reload lands between the two selections
+		{"q:46:ok,r:ok", "s0,g0,s1,g0"},       // reload lands after the second selection
+		{"q:46:ok,r:ok", "s1,s0"},             // reload first: the request runs on the reloaded selector
+		{"q:4:ok,r:ok,q:6:ok", "s0,s1,s2,g0"}, // second request arrives behind a pending reload
+		{"q:46:ok,r:ok,r:ok", "s0,s1,g0,s2"},  // two reloads, one after the other
+		{"q:46:ok,q:46:ok,r:ok", "s0,s1,g0,s2,g1,g0,g1"},
+		{"q:46:sel,r:ok", "s0,s1,g0,g0"},
+		{"q:4:sel:d,r:ok", "s0,s1,g0"},
+		{"q::early,r:ok,q::ok", "s0,s1,s2"},
+		{"q:46:ok,r:early,r:ok", "s0,s1,g0,s2,g0"},
+		{"q:46:late,r:ok", "s0,s1,g0,g0"},
+		// the publishing lock: a failed send must not keep later registrations from being published
+		{"q:46:late:zf,q:46:ok,r:ok", "s0,g0,g0,s1,s2,g1,g1"},
+		{"u:late:zf,u:ok,q:4:ok", "s0,s1,s2,g2"},
+		{"q:4:late:zf,u:ok,r:ok,u:early:short", "s0,s2,g0,s1,s3"},
 	}
 	for _, c := range corpus {
 		specs := strings.Split(c[0], ",")
@@ -944,21 +1106,28 @@ func TestVerifC13(t *testing.T) {
 	}
 	var sets [][]string
 	for _, a := range reqSpecs {
-		sets = append(sets, []string{a, "r:base"})
+		sets = append(sets, []string{a, "r:ok"})
 	}
 	for _, a := range reqSpecs[:4] {
-		sets = append(sets, []string{a, "r:base", "r:base"}, []string{a, "r:return", "r:base"})
+		sets = append(sets, []string{a, "r:ok", "r:ok"}, []string{a, "r:early", "r:ok"})
 		for _, b := range reqSpecs[:6] {
-			sets = append(sets, []string{a, b, "r:base"})
+			sets = append(sets, []string{a, b, "r:ok"})
+		}
+	}
+	// a registration whose send fails, next to registrations that publish afterwards
+	for _, a := range []string{"q:46:late:zf", "q:4:late:zf", "u:late:zf"} {
+		for _, b := range []string{"q:46:ok", "q:4:ok", "u:ok"} {
+			sets = append(sets, []string{a, b, "r:ok"})
 		}
 	}
 	if vlib.Tier() == "thorough" {
 		for _, a := range reqSpecs[:3] {
 			for _, b := range reqSpecs[:5] {
-				sets = append(sets, []string{a, b, "r:base", "r:base"})
+				sets = append(sets, []string{a, b, "r:ok", "r:ok"})
 			}
 		}
-		sets = append(sets, []string{"q:v4+v6", "q:v4+v6", "q:v4", "r:base"}, []string{"q:v4+v6", "q:v4", "q:v6", "r:base"})
+		sets = append(sets, []string{"q:46:ok", "q:46:ok", "q:4:ok", "r:ok"}, []string{"q:46:ok", "q:4:ok", "q:6:ok", "r:ok"},
+			[]string{"q:46:late:zf", "u:late:zf", "q:46:ok", "r:ok"})
 	}
 	budget := vlib.Budget(4000, 60000)
 	for _, set := range sets {
@@ -995,7 +1164,7 @@ func TestVerifC13(t *testing.T) {
 		nq := r.Range(2, 5)
 		for i := 0; i < nq; i++ {
 			if r.Chance(1, 2) {
-				specs = append(specs, "q:v4+v6")
+				specs = append(specs, "q:46:ok")
 			} else {
 				specs = append(specs, reqSpecs[r.Intn(len(reqSpecs))])
 			}
@@ -1003,9 +1172,9 @@ func TestVerifC13(t *testing.T) {
 		nr := r.Range(1, 3)
 		for i := 0; i < nr; i++ {
 			if r.Chance(1, 6) {
-				specs = append(specs, "r:return")
+				specs = append(specs, "r:early")
 			} else {
-				specs = append(specs, "r:base")
+				specs = append(specs, "r:ok")
 			}
 		}
 		// shuffle positions so that reloads are not always last
@@ -1038,16 +1207,34 @@ func TestVerifC13(t *testing.T) {
 	for i := 0; i < rounds && c13Deadlocks < 40; i++ {
 		c13Stress(t, out, r, r.Range(4, 24), r.Range(20, 120), r.Range(20, 200), r.Range(1, 3))
 	}
-	// targeted search (a proof obligation or the correspondence broke and nothing failed so far):
-	// lock windows that no gate can reach — e.g. between two acquisitions before the first selection —
-	// only open under real concurrency, so hammer the processor with back-to-back reloads
+	// Continuous reload stress: lock windows that no gate can reach — e.g. between two acquisitions before
+	// the first selection — only open under real concurrency, so the processor is hammered with
+	// back-to-back reloads while the request goroutines keep going. Part of the thorough tier, and of the
+	// targeted search (a proof obligation or the correspondence broke and nothing failed so far). The
+	// verdict is the same settled-state check as above (one stop-the-world dump in which every live
+	// goroutine waits for a lock of the processor), never a wall-clock bound.
+	cont := 0
+	if vlib.Tier() == "thorough" {
+		cont = 6
+	}
 	if os.Getenv("VERIF_SEARCH") == "1" {
+		cont = 12
+	}
+	if cont > 0 {
 		c13StressContinuous = true
-		for i := 0; i < 12 && c13Deadlocks == 0; i++ {
+		for i := 0; i < cont && c13Deadlocks == 0; i++ {
 			c13Stress(t, out, r, r.Range(10, 24), r.Range(50, 200), 1500, r.Range(1, 2))
-			out.Count("gen:search-stress")
+			out.Count("gen:continuous-stress")
 		}
 		c13StressContinuous = false
+	}
+	if os.Getenv("VERIF_SEARCH") == "1" {
+		// what the model says about the extracted programs: a fine-grained deadlocking schedule, if there is one
+		for _, set := range [][]string{{"q:46:ok", "r:ok"}, {"q:4:ok", "r:ok"}, {"q:46:sel", "r:ok"}, {"q:4:sel", "r:ok"}, {"q:46:late", "r:ok"}} {
+			if ans, ok := c13AskDriver("rwsched", set); ok && strings.HasPrefix(ans, "deadlock:") {
+				out.Note("model (Model.RW.findDeadlock over the extracted programs): threads " + strings.Join(set, ",") + " deadlock under the fine-grained schedule " + strings.TrimPrefix(ans, "deadlock:") + " (thread index per step)")
+			}
+		}
 	}
 	out.Note(fmt.Sprintf("deterministic scenarios are settled by goroutine dumps (no timeouts in the verdict); gate only on selector version 0; %d deadlock(s) observed", c13Deadlocks))
 }
